@@ -9,6 +9,7 @@ import (
 	"reflect"
 	"sort"
 	"strings"
+	"sync"
 	"testing"
 	"time"
 
@@ -329,7 +330,7 @@ func (a *c38Sig) diff(b *c38Sig) string {
 // with the exported building blocks.
 func c38ApplyMeta(o *index.Options) error {
 	for _, fn := range o.FindAllShards() {
-		repos, _, err := index.ReadMetadataPath(fn)
+		repos, md, err := index.ReadMetadataPath(fn)
 		if err != nil {
 			return err
 		}
@@ -348,7 +349,11 @@ func c38ApplyMeta(o *index.Options) error {
 		} else if !updated {
 			continue
 		}
-		tmp, dst, err := index.JsonMarshalRepoMetaTemp(fn, repos)
+		var merged any = repos
+		if md.IndexFormatVersion < 17 {
+			merged = repo // <= v16 sidecars hold a single repository, not a list
+		}
+		tmp, dst, err := index.JsonMarshalRepoMetaTemp(fn, merged)
 		if err != nil {
 			return err
 		}
@@ -365,21 +370,50 @@ type c38Outcome struct {
 	State  index.IndexState
 }
 
-// c38Eval builds with v1, judges v2 against it and applies every oracle.
-func c38Eval(rec *kit.Rec, work string, v1, v2 []int, corpus []c38Doc, count bool) c38Outcome {
+// c38Base is an index built once with the base option set; cases work on copies.
+type c38Base struct {
+	vals   []int
+	dir    string
+	corpus []c38Doc
+	before *c38Sig
+}
+
+func copyDir(src, dst string) error {
+	if err := os.MkdirAll(dst, 0o755); err != nil {
+		return err
+	}
+	ents, err := os.ReadDir(src)
+	if err != nil {
+		return err
+	}
+	for _, e := range ents {
+		b, err := os.ReadFile(filepath.Join(src, e.Name()))
+		if err != nil {
+			return err
+		}
+		if err := os.WriteFile(filepath.Join(dst, e.Name()), b, 0o644); err != nil {
+			return err
+		}
+	}
+	return nil
+}
+
+// c38Eval judges v2 against (a private copy of) the index built with the base set
+// and applies every oracle.
+func c38Eval(rec *kit.Rec, work string, base *c38Base, v2 []int, count bool) c38Outcome {
+	v1, corpus := base.vals, base.corpus
 	o1, o2 := c38Make(v1), c38Make(v2)
 	dir := filepath.Join(work, "idx")
 	dir2 := filepath.Join(work, "idx2")
-	defer os.RemoveAll(dir)
-	defer os.RemoveAll(dir2)
-	if err := c38Build(o1, dir, corpus); err != nil {
-		return c38Outcome{Class: "harness/base index not buildable", Detail: err.Error()}
+	defer os.RemoveAll(work)
+	if err := copyDir(base.dir, dir); err != nil {
+		return c38Outcome{Class: "harness/copy base index", Detail: err.Error()}
 	}
-	captured.take()
 	q := o2.options(dir)
 	state, _ := q.IndexState()
 	out := c38Outcome{State: state}
 	noReindex := state == index.IndexStateEqual || state == index.IndexStateMeta
+	before := base.before
 
 	classes := map[string]bool{}
 	var changed []string
@@ -390,11 +424,6 @@ func c38Eval(rec *kit.Rec, work string, v1, v2 []int, corpus []c38Doc, count boo
 		}
 	}
 	metaOnly := len(changed) > 0 && len(classes) == 1 && classes[clMeta]
-
-	before, err := c38Read(dir, o1.Name)
-	if err != nil {
-		return c38Outcome{Class: "harness/read base index", Detail: err.Error(), State: state}
-	}
 
 	if noReindex {
 		// (1) differential: what would a re-index with O2 have produced?
@@ -411,19 +440,19 @@ func c38Eval(rec *kit.Rec, work string, v1, v2 []int, corpus []c38Doc, count boo
 				rec.Count("differential_rebuilds", 1)
 			}
 			if d := before.diff(after); d != "" {
-				out.Class = "judged up to date but a re-index changes searchable content/" + string(state)
+				out.Class = "judged up to date but a re-index changes searchable content"
 				out.Detail = d
 				return out
 			}
 		}
 	}
 	if classes[clBranches] && noReindex {
-		out.Class = "branch change judged up to date/" + string(state)
+		out.Class = "branch change judged up to date"
 		out.Detail = fmt.Sprintf("index has %v, options ask %v", o1.Branches, o2.Branches)
 		return out
 	}
 	if metaOnly && state != index.IndexStateMeta {
-		out.Class = "metadata-only change not classified meta-mismatch/" + string(state)
+		out.Class = "metadata-only change not classified meta-mismatch"
 		out.Detail = fmt.Sprintf("changed only %v", changed)
 		return out
 	}
@@ -520,11 +549,22 @@ func TestVerif_C38(t *testing.T) {
 				}
 			}
 		}
-		work := filepath.Join(rec.Work, fmt.Sprintf("c38-%d", bi))
-		os.MkdirAll(work, 0o755)
-		one := func(v2 []int) {
+		root := filepath.Join(rec.Work, fmt.Sprintf("c38-%d", bi))
+		bs := &c38Base{vals: base, dir: filepath.Join(root, "base"), corpus: corpus}
+		if err := c38Build(c38Make(base), bs.dir, corpus); err != nil {
+			rec.Violation("harness/base index not buildable", err.Error(), c38Describe(base))
+			continue
+		}
+		var err error
+		if bs.before, err = c38Read(bs.dir, c38Make(base).Name); err != nil {
+			rec.Violation("harness/read base index", err.Error(), c38Describe(base))
+			continue
+		}
+		var cases [][]int
+		one := func(ci int, v2 []int) {
+			work := filepath.Join(root, fmt.Sprintf("case-%d", ci))
 			changed := c38Changed(base, v2)
-			out := c38Eval(rec, work, base, v2, corpus, true)
+			out := c38Eval(rec, work, bs, v2, true)
 			rec.Count("pairs", 1)
 			rec.Count("verdict/"+string(out.State), 1)
 			if len(changed) == 1 {
@@ -558,7 +598,7 @@ func TestVerif_C38(t *testing.T) {
 					}
 					v := append([]int(nil), base...)
 					v[i] = v2[i]
-					if o := c38Eval(rec, work, base, v, corpus, false); o.Class == out.Class {
+					if o := c38Eval(rec, work+"-r", bs, v, false); o.Class == out.Class {
 						c = append(c, c38Dims[i].name)
 					}
 				}
@@ -570,7 +610,7 @@ func TestVerif_C38(t *testing.T) {
 				map[string]any{"O1": c38Describe(base), "O2": c38Describe(v2), "changed": changed, "verdict": out.State, "detail": out.Detail,
 					"corpus": corpus, "replay": "build O1 with index.Builder over corpus (a document's branch roles: 0 = main/trunk, 1 = dev, 2 = rel if indexed else role 0); call O2.IndexState() on that directory; build O2 into an empty directory and compare Search(const true, Whole) + List"})
 		}
-		one(append([]int(nil), base...)) // identical
+		cases = append(cases, append([]int(nil), base...)) // identical
 		for i, d := range c38Dims {
 			for v := 0; v < d.n; v++ {
 				if v == base[i] {
@@ -578,7 +618,7 @@ func TestVerif_C38(t *testing.T) {
 				}
 				v2 := append([]int(nil), base...)
 				v2[i] = v
-				one(v2)
+				cases = append(cases, v2)
 			}
 		}
 		for i := range c38Dims {
@@ -589,9 +629,26 @@ func TestVerif_C38(t *testing.T) {
 						v2[k] = r.IntN(c38Dims[k].n)
 					}
 				}
-				one(v2)
+				cases = append(cases, v2)
 			}
 		}
-		os.RemoveAll(work)
+		// the case list is fixed above; evaluation order does not matter
+		var wg sync.WaitGroup
+		next := make(chan int)
+		for w := 0; w < 8; w++ {
+			wg.Add(1)
+			go func() {
+				defer wg.Done()
+				for ci := range next {
+					one(ci, cases[ci])
+				}
+			}()
+		}
+		for ci := range cases {
+			next <- ci
+		}
+		close(next)
+		wg.Wait()
+		os.RemoveAll(root)
 	}
 }
